@@ -9,11 +9,9 @@ package pfcpiface
 
 import (
 	"bytes"
-	"context"
 	"encoding/json"
 	"fmt"
 	pb "github.com/omec-project/upf-epc/pfcpiface/bess_pb"
-	"google.golang.org/grpc/connectivity"
 	"google.golang.org/grpc/credentials/insecure"
 	"net"
 	"os"
@@ -85,9 +83,15 @@ func c12Run(sc c12Scenario, prefix []int, sigs []string, ready *grpc.ClientConn)
 	var assocTS time.Time
 	var probeOK bool
 	horizon := 40 * time.Second
+	vsched.S = nil
+	u, f := schedUPF(true, 100000*time.Second, ready)
+	defer func() {
+		if b, ok := u.datapath.(*bess); ok && b.conn != nil {
+			b.conn.Close()
+		}
+	}()
 	s.Run(func() {
 		fab = vnet.NewFabric()
-		u, f := schedUPF(true, 100000*time.Second, ready)
 		fb = f
 		u.maxReqRetries = sc.Retries
 		u.respTimeout = c12Resp
@@ -586,15 +590,8 @@ func c12RealChannel(res *vResult) {
 		go g.Serve(lis)
 	}
 	waitFor := func(conn *grpc.ClientConn, ready bool) {
-		ctx, cancel := context.WithTimeout(context.Background(), 20*time.Second)
-		defer cancel()
-		for (conn.GetState() == connectivity.Ready) != ready {
-			if ready {
-				conn.Connect()
-			}
-			if !conn.WaitForStateChange(ctx, conn.GetState()) {
-				panic(fmt.Sprintf("VERIF-INFRA: C12 real channel did not become ready=%v within 20 s (state %v)", ready, conn.GetState()))
-			}
+		if !vWaitChannel(conn, ready, 20*time.Second) {
+			panic(fmt.Sprintf("VERIF-INFRA: C12 real channel did not become ready=%v within 20 s (state %v)", ready, conn.GetState()))
 		}
 	}
 	for _, sq := range []string{"A", "TA", "ATA", "TTA", "ATTA", "TATA", "ATATA"} {
